@@ -198,6 +198,10 @@ def run(ctx):
                 pass
     rejected, st = tlc.judge_cases('Conf_Checker', [ec.strip_case(c) for c in cases], chunk=3000, timeout=3000)
     ctx.traces += len(cases)
+    from harness import canary
+    from checks import canaries
+    canary.probe(ctx, 'Conf_Checker', [c for i, c in enumerate(cases, 1) if i not in set(rejected)], canaries.checker,
+                 canary.by_cases('Conf_Checker', ec.strip_case, chunk=3000))
     for i in rejected:
         c = cases[i - 1]
         key = 'crashed' if c['crashed'] else ('requested-rule' if c['requested'] else 'listing')
